@@ -14,6 +14,9 @@ from sievelib import parser as sl_parser  # noqa: E402
 Command = sl_commands.Command
 
 
+SLOW = {"first": 0, "confirmed": 0}
+
+
 def budget(data):
     return 20000 + 3000 * len(data)
 
@@ -40,6 +43,16 @@ def parse(data, parser=None, via_file=None) -> Outcome:
         kind, val, steps = core.guarded(p.parse_file, budget(data), via_file)
     else:
         kind, val, steps = core.guarded(p.parse, budget(data), data)
+    if kind == "slow":
+        # never decide on one timing: run it again (fresh parser)
+        SLOW["first"] += 1
+        p = o.parser = sl_parser.Parser() if parser is None else p
+        if via_file is not None:
+            kind, val, steps = core.guarded(p.parse_file, budget(data), via_file)
+        else:
+            kind, val, steps = core.guarded(p.parse, budget(data), data)
+        if kind == "slow":
+            SLOW["confirmed"] += 1
     o.kind, o.steps = kind, steps
     o.ok = val if kind == "ret" else None
     o.exc = val if kind != "ret" else None
